@@ -150,7 +150,7 @@ theorem C16_history (h : List (Block β)) (hq : ∀ b ∈ h, b.quiet H = true) :
 
 "A TC timer is armed only for an address that has a deferred packet."  C15 proves this for the concrete
 host (`Survive.LInv.timer`); here it is proved for the listener over **every** handler, with C15's
-association-list lemmas, and shown to be the same predicate (`C16_timerInv_is_C15s`). -/
+association-list lemmas; `Proofs/ListenerBridge.lean` (`timerInv_forget`, `timerInv_of_LInv`) shows it is the same predicate. -/
 
 /-- the invariant holds initially and is preserved by every block (arrival, TC timer, anything else) -/
 theorem C16_timer_invariant :
@@ -181,11 +181,6 @@ theorem C16_history_total (d0 : σ) (h : List (Block β)) (hq : ∀ b ∈ h, b.q
   rcases C16_run_total H d0 h with ⟨s', o, hr, _⟩ | hr
   · exact Or.inl ⟨(s', o), hr, by rw [he, hr]⟩
   · exact Or.inr ⟨hr, by rw [he, hr]⟩
-
-/-- the invariant proved here and the `timer` half of C15's `LInv` are one predicate, read through the
-forgetful map from C15's concrete listener state to this one -/
-theorem C16_timerInv_is_C15s (s : Zc.Survive.State σ) (hL : Zc.Survive.LInv s) : TimerInv (forget s) :=
-  (timerInv_forget s).mpr hL.timer
 
 /-- **The exception is real and is exactly the guard's.**  After a QU query was processed the guard is
 open: the second copy goes through `process` again (so the query handler runs again). -/
